@@ -289,7 +289,7 @@ func (pp propC08) Replay(f finding) (bool, string) {
 
 // ---------------- race detector part ----------------
 
-var raceFrameRe = regexp.MustCompile(`^\s+(/repo/\S+\.go):(\d+)`)
+var raceFrameRe = regexp.MustCompile(`^\s+(\S*/repo/\S+\.go):(\d+)`)
 
 // raceRunMain: scenario (c) repeated, executed by the -race build.
 func raceRunMain(args []string) {
@@ -371,7 +371,7 @@ func parseRaceLogs(glob string) (reports map[string]*raceReport, blocks int) {
 						var n int
 						fmt.Sscan(m[2], &n)
 						stmts = append(stmts, sourceLine(m[1], n))
-						where = append(where, strings.TrimPrefix(m[1], "/repo/"))
+						where = append(where, m[1][strings.Index(m[1], "/repo/")+len("/repo/"):])
 						break
 					}
 				}
@@ -397,7 +397,11 @@ func c08RacePhase(tier string, seed int64, agg *aggregate) {
 	work := filepath.Join(verifDir, "work", "C08")
 	os.MkdirAll(work, 0o755)
 	bin := filepath.Join(verifDir, "bin", "vcheck.C08.race")
-	build := exec.Command("go", "build", "-race", "-tags", "verif", "-o", bin, ".")
+	args := []string{"build", "-race", "-tags", "verif", "-o", bin}
+	if r := os.Getenv("VERIF_REPO"); r != "" && r != "/repo" {
+		args = append(args, "-modfile="+filepath.Join(verifDir, "bin", "go.alt.mod"))
+	}
+	build := exec.Command("go", append(args, ".")...)
 	build.Dir = filepath.Join(verifDir, "harness")
 	build.Env = append(os.Environ(), "GOFLAGS=-mod=mod", "GOPROXY=off", "GOSUMDB=off", "GOTOOLCHAIN=local")
 	if out, err := build.CombinedOutput(); err != nil {
